@@ -127,7 +127,7 @@ type JobSpec struct {
 	SolverTimeoutMs int
 	SmallSize       int64
 	Label           string
-	MaxWallMs       int64 // stop exploring new paths of this job after this much wall time
+	MaxWallMs       int64 // wall limit of one path; the job stops exploring new paths after three times this
 }
 
 func (s JobSpec) Name() string {
@@ -230,7 +230,7 @@ func (j *Job) Inconclusive() []string {
 		r = append(r, fmt.Sprintf("path limit %d hit", j.Spec.MaxPaths))
 	}
 	if j.wallLimitHit {
-		r = append(r, fmt.Sprintf("wall-time limit %d ms hit after %d paths", j.Spec.MaxWallMs, j.Paths))
+		r = append(r, fmt.Sprintf("wall-time limit 3x%d ms hit after %d paths", j.Spec.MaxWallMs, j.Paths))
 	}
 	if j.UnknownAssert > 0 {
 		r = append(r, fmt.Sprintf("%d assertion queries answered unknown", j.UnknownAssert))
@@ -330,7 +330,8 @@ func (s *scheduler) next() (*Job, []decision) {
 				if j.started.IsZero() {
 					j.started = time.Now()
 				}
-				if j.Spec.MaxWallMs > 0 && time.Since(j.started) > time.Duration(j.Spec.MaxWallMs)*time.Millisecond {
+				// (a single path may take MaxWallMs; the job as a whole three times that)
+				if j.Spec.MaxWallMs > 0 && time.Since(j.started) > 3*time.Duration(j.Spec.MaxWallMs)*time.Millisecond {
 					j.wallLimitHit = true
 					j.queue = nil
 					j.mu.Unlock()
